@@ -466,27 +466,31 @@ func (p *printer) cmd(c *Cmd) {
 func PrintFile(f *File) string {
 	p := &printer{file: f}
 	b := &p.b
+	nl := "\n"
+	if f.CRLF {
+		nl = "\r\n"
+	}
 	b.WriteString("{namespace " + f.Namespace)
 	if f.Autoescape != "" {
 		b.WriteString(" autoescape=" + AttrQuote(f.Autoescape))
 	}
-	b.WriteString("}\n")
+	b.WriteString("}" + nl)
 	for _, a := range f.Aliases {
-		b.WriteString("{alias " + a + "}\n")
+		b.WriteString("{alias " + a + "}" + nl)
 	}
 	for ti := range f.Templates {
 		t := &f.Templates[ti]
-		b.WriteString("\n")
+		b.WriteString(nl)
 		if !t.Header || t.BothDecls {
-			b.WriteString("/**\n")
+			b.WriteString("/**" + nl)
 			for _, pd := range t.Params {
 				if pd.Optional {
-					b.WriteString(" * @param? " + pd.Name + "\n")
+					b.WriteString(" * @param? " + pd.Name + nl)
 				} else {
-					b.WriteString(" * @param " + pd.Name + "\n")
+					b.WriteString(" * @param " + pd.Name + nl)
 				}
 			}
-			b.WriteString(" */\n")
+			b.WriteString(" */" + nl)
 		}
 		b.WriteString("{template ." + t.Name)
 		if t.Autoescape != "" {
@@ -509,7 +513,7 @@ func PrintFile(f *File) string {
 			}
 		}
 		p.cmds(t.Body)
-		b.WriteString("{/template}\n")
+		b.WriteString("{/template}" + nl)
 	}
 	return b.String()
 }
